@@ -15,7 +15,7 @@ EXTRACT = ['guards']
 LEAN_TARGETS = ['DeepModel.Props.C01']
 AUDIT = 'DeepModel/Audit/C01.lean'
 DRIVER = 'DeepModel/Driver/C01.lean'
-BUDGET = {'quick': 400, 'thorough': 6000}
+BUDGET = {'quick': 360, 'thorough': 6000}
 TIME = {'quick': 75, 'thorough': 840}
 RULE = ('scenario = host program (calls, recursion, exceptions, generators/iterators, threads, raising dunders, seeded '
         'random, finalizers/weakrefs, classes/closures, data structures, loops, source-less "ghost" module) x input x 1-4 '
